@@ -4,8 +4,8 @@
     C20_clean_dry_run), C20_getlog_agrees_partial (exact characterisation; `C20_getlog_agrees_full` is false:
     C20_getlog_counterexample + the two history counterexamples), C20_list_status_agrees,
     C20_decision_is_what_run_does, C20_list_lines_agree / _threaded, C20_info_status_agrees_partial,
-    C20_info_upToDate_iff, C20_info_ignored_counterexample, C20_info_counterexample, C20_reasons_true,
-    C20_reasons_complete.
+    C20_info_ignored_agrees, C20_info_upToDate_iff, C20_pinned_info_ignored_counterexample (the tree before the
+    fix: commit), C20_info_counterexample, C20_reasons_true, C20_reasons_complete, C20_reasons_changed_is_true.
 (K) statuslib histories are executed by the real doit (statuslib's own correspondence of the history is kept); at
     probe points the scratch directory (files + DB) is copied and every read-only command is run through the CLI
     in-process on a copy: `list` in all option combinations that matter, `info t` / `info --no-status t`, `help`,
@@ -69,8 +69,9 @@ META = {
                   'calls and DB content; the monitors evaluate the property statement on the implementation alone '
                   '(snapshots around the command, event log, and a real `doit run` as the oracle of the decision).',
     'level_note': 'C20_getlog_agrees_full and C20_info_status_agrees_full are FALSE of the code (counterexample '
-                  'theorems; open findings info-ignored-shows-status, info-error-overwritten-by-run, '
-                  'info-error-where-run-executes); the theorems proved are the _partial ones with the exact '
+                  'theorems; open findings info-error-overwritten-by-run, info-error-where-run-executes; '
+                  'the third design-time item, info never showing "ignore", is repaired in /repo and kept as '
+                  'C20_pinned_info_ignored_counterexample + seeded/revert-F-C20-info-ignore); the theorems proved are the _partial ones with the exact '
                   'exception set.  Which backend persists the documented removal (only dbm: write-through remove, '
                   'the commands never close()) is observed, not modelled.  The content of help / tabcompletion / '
                   'dumpdb output is not modelled (trivial frame facts; observation only).  reasons_true is about the '
@@ -92,7 +93,9 @@ META = {
     'trusted': ['task ordering/selection inside one `doit run` is taken from the implementation\'s reporter stream',
                 'backends are exercised, not modelled here (C07)',
                 'DB write calls are observed by wrapping set/remove/remove_all/dump of the three backend classes in '
-                'the harness process (no change in /repo)'],
+                'the harness process (no change in /repo)',
+                'importlib.metadata.entry_points (plugin discovery of doit) is memoised per worker process: the '
+                'installed distributions do not change during a run'],
     'models': ['M2', 'M8'],
 }
 
@@ -103,10 +106,6 @@ DB_SUFFIX = {'json': {''}, 'dbm': {'.dat', '.dir', '.bak'}, 'sqlite3': {'', '-jo
 
 # ----------------------------------------------------------------------------------------------
 # signatures of the open findings
-
-def _sig_info_ignored(w):
-    return (w.get('clause') == 'agree-info' and w.get('ran') == 'ignore' and w.get('shown') in ('run', 'up-to-date', 'error'))
-
 
 def _sig_info_overwritten(w):
     r = w.get('reasons') or {}
@@ -122,7 +121,6 @@ def _sig_info_hidden(w):
 
 
 SIGNATURES = {
-    'info-ignored-shows-status': _sig_info_ignored,
     'info-error-overwritten-by-run': _sig_info_overwritten,
     'info-error-where-run-executes': _sig_info_hidden,
 }
@@ -236,7 +234,25 @@ def record_backend_calls():
             setattr(cls, name, orig)
 
 
-def release_db():
+def memoize_entry_points():
+    """doit scans the metadata of every installed distribution three times per command line
+    (`importlib.metadata.entry_points`, ~7 ms each: half of the CPU time of a probe).  The installed distributions do
+    not change during a run: the answer is computed once per group and worker process."""
+    import importlib.metadata as md
+    if getattr(md.entry_points, '_c20_cached', False):
+        return
+    orig, cache = md.entry_points, {}
+
+    def entry_points(**params):
+        key = tuple(sorted(params.items()))
+        if key not in cache:
+            cache[key] = orig(**params)
+        return cache[key]
+    entry_points._c20_cached = True
+    md.entry_points = entry_points
+
+
+def release_db(collect=True):
     """doit keeps the last Dependency object in `doit.globals.Globals.dep_manager`; its dbm.dumb handle re-writes its
     index file -- through a *relative* path -- when it is finalised after a removal.  A real command is one process
     in one directory; here many commands run in one process in changing directories, so the handle is released while
@@ -246,7 +262,8 @@ def release_db():
         Globals.dep_manager = None
     except Exception:  # noqa
         pass
-    gc.collect()
+    if collect:
+        gc.collect()
 
 
 def raw_keys(world):
@@ -278,8 +295,26 @@ def raw_keys(world):
         return ['exc:' + type(ex).__name__]
 
 
-def snapshot(world):
-    """logical DB (backend API), non-DB files (digest, mtime), names of the DB files; `stat`: what the checkers see"""
+def raw_fingerprint():
+    """bytes of every file of the directory (DB files: content only -- `clean` re-dumps an unchanged json DB; other
+    files: content and mtime).  Equal fingerprints imply equal snapshots, so the logical dump can be skipped."""
+    out = []
+    for name in sorted(os.listdir('.')):
+        if os.path.isdir(name):
+            out.append((name, 'dir'))
+            continue
+        with open(name, 'rb') as f:
+            data = f.read()
+        out.append((name, hashlib.sha1(data).hexdigest(), None if name.startswith('deps-') else os.stat(name).st_mtime_ns))
+    return out
+
+
+def snapshot(world, like=None):
+    """logical DB (backend API), non-DB files (digest, mtime), names of the DB files; `stat`: what the checkers see.
+    `like` = an earlier snapshot: returned as is when the directory is byte-identical to what it was then."""
+    raw = raw_fingerprint()
+    if like is not None and like.get('raw') == raw:
+        return like
     files, dbfiles, stat = {}, [], {}
     for p in range(world.npaths):
         n = fname(p)
@@ -301,7 +336,9 @@ def snapshot(world):
         db = world.dump()
     except Exception as ex:  # noqa
         db = ['exc', type(ex).__name__]
-    return {'files': files, 'dbfiles': dbfiles, 'db': db, 'stat': stat, 'keys': raw_keys(world)}
+    keys = raw_keys(world)
+    # reading must not have changed anything either (dbm.dumb / sqlite3 opened read-only by the dump)
+    return {'files': files, 'dbfiles': dbfiles, 'db': db, 'stat': stat, 'keys': keys, 'raw': raw_fingerprint()}
 
 
 def rec_absent(rec):
@@ -421,13 +458,14 @@ def run_probe(world, spec):
             argv2 = [a.replace('{db}', world.db) for a in argv]
             with record_backend_calls() as calls:
                 code, out, err = world.doit(argv2)
-            release_db()
-            snap1 = snapshot(world)
+            # the finalisation hazard exists only for a handle that wrote something
+            release_db(collect=any(c[0] in ('set', 'remove', 'remove_all') for c in calls))
+            snap1 = snapshot(world, like=snap0)
             res = {'argv': argv, 'code': code, 'out': out, 'err': err[-400:], 'events': list(world.events),
                    'calls': [list(c) for c in calls], 'after': snap1}
             results.append(res)
             os.chdir(base)
-            if snap1 != snap0:
+            if snap1 is not snap0:
                 shutil.rmtree(copy[0], ignore_errors=True)
                 copy[0] = None
         # the oracle: what does `run` decide at this moment
@@ -587,7 +625,7 @@ def check_reasons(pr, t, status, reasons):
     for k in surely_false:
         if k in printed:
             printed.remove(k)
-        else:
+        elif status != 'ignore':     # an ignored task is not examined: `info` prints no reason for it
             bad.append('uptodate_false: a false %s item is not listed' % k)
     maybe = [i[0] for i in d['uptodate'] if i[0] in ('runOnce', 'cfg', 'res')]
     for k in printed:
@@ -599,8 +637,8 @@ def check_reasons(pr, t, status, reasons):
         bad.append('unknown reason line %r' % reasons['unknown'][:1])
     any_reason = reasons['noDeps'] or reasons['checkerChanged'] is not None or any(
         reasons[k] for k in ('utdFalse', 'missingTarget', 'changed', 'missingDep', 'removed', 'added'))
-    if status == 'up-to-date' and any_reason:
-        bad.append('reasons printed for an up-to-date task')
+    if status in ('up-to-date', 'ignore') and any_reason:
+        bad.append('reasons printed for an %s task' % status)
     if status in ('run', 'error') and not any_reason:
         bad.append('no reason printed for status %s' % status)
     return bad
@@ -623,6 +661,7 @@ class Outcome(object):
 def run_case(case):
     """execute one case; returns Outcome"""
     common.use_repo()
+    memoize_entry_points()
     out = Outcome()
     base_case = statuslib.strip(case)
     base_case.pop('hashseed', None)
@@ -819,7 +858,7 @@ def compare_probe(case, i, pr, m, out, checks, check_tags):
                 elif status != 'crash' and {k: reasons[k] for k in empty_reasons()} != mi['reasons']:
                     out.divs.append(dict(wit, what='info reasons', impl=reasons, model=mi['reasons']))
             if status != 'crash':
-                expected_code = 0 if status == 'up-to-date' else 1
+                expected_code = 0 if status in ('up-to-date', 'ignore') else 1
                 if r['code'] != expected_code:
                     out.divs.append(dict(wit, what='info exit code', impl=r['code'], model=expected_code))
                 for b in check_reasons(pr, t, status, reasons):
@@ -1141,7 +1180,7 @@ def run(ctx):
     short = [c for c in ex if len(c['word']) <= 1]
     rest = [c for c in ex if len(c['word']) > 1]
     items += [('exhaustive', c) for c in short]
-    n_random = (110 if quick else 2500) * ctx.boost
+    n_random = (140 if quick else 2500) * ctx.boost
     rnd = [('random', gen_case(random_for(ctx, i))) for i in range(n_random)]
     # interleave the longer exhaustive words with the random histories
     k = max(1, len(rest) // max(1, len(rnd))) if rnd else 1
@@ -1154,9 +1193,9 @@ def run(ctx):
     items += [('exhaustive', c) for c in rest[ri:]]
     ctx.extra['exhaustive_small_scope'] = {'alphabet': len(EXH_LETTERS), 'max_len': max(len(c['word']) for c in ex),
                                            'histories': len(ex)}
-    size = 6
+    size = 4 if quick else 6
     batches = [items[i:i + size] for i in range(0, len(items), size)]
-    per_round = common.NCPU * 2
+    per_round = common.NCPU * (6 if quick else 2)
     done = 0
     for r0 in range(0, len(batches), per_round):
         if r0 > 0 and ctx.time_left() <= 0:
